@@ -20,6 +20,7 @@ CXXFLAGS = ['-std=gnu++17', '-I' + INC, '-I' + os.path.join(VERIF, 'universe'), 
 
 
 _REPO_UNITS = {}
+UNIT_DEADLINE = None       # set per worker by repo_units for the repository's own units (thorough tier)
 
 
 def is_repo_unit(path):
